@@ -52,6 +52,12 @@ def main(p):
             push(a, x[:s], p["chunks_a"], "full")
             push(b, x[s:], p["chunks_b"], "full")
             compare(bad, f"merge at {s}", a + b, ref, ("count", "m1", "m2", "m3", "m4", "min", "max"))
+    elif p["kind"] == "push_wrapper":
+        x = np.array([[5.0], [1.0], [9.0], [3.0], [2.0], [4.0]])
+        cs = ChannelStats(1, 6)
+        push(cs, x, [2, 2, 2], p["mode"])
+        fields = ("count", "m1", "m2", "min", "max") + (("m3", "m4") if p["mode"] == "full" else ())
+        compare(bad, f"push_data mode={p['mode']} in 3 chunks", cs, two_pass(x), fields)
     elif p["kind"] == "overflow":
         na, nb = p["count_a"], p["count_b"]
         rng = np.random.default_rng(3)
